@@ -671,7 +671,12 @@ def getitem(it, base, idx, node, fr):
             return base
         raise Unsupported("table subscript form", node)
     if isinstance(base, Arr):
-        return arr_getitem(it, base, idx, node)
+        r_ = arr_getitem(it, base, idx, node)
+        # A[:, k] is a *view* of column k: an in-place update of the view (v += ...) is an update of A
+        if base.ndim == 2 and isinstance(idx, Seq) and len(idx.items) == 2 and isinstance(idx.items[0], SliceV) and idx.items[0].is_full() \
+                and is_pyconst(idx.items[1]) and isinstance(pyval(idx.items[1]), int) and isinstance(r_, Val):
+            r_.view_of = (base, pyval(idx.items[1]) % len(base.cols))
+        return r_
     if isinstance(base, Seq):
         a = None
         if isinstance(idx, SliceV):
